@@ -797,9 +797,10 @@ def refute_candidates(prog, ctx, ntwins, reached, via):
                 # rules about one function: the entry is any fermionic frame that was running it
                 fn = next((g for g in prog.funcs.values() if g.file == f.file and g.qualname == f.qualname), None)
                 ents = {fn.fq} if fn is not None else set()
-            # ... and on the synchronised twin no array in scope at S carries pending signs: signs seen there were produced inside
-            # the operation, and the twins (which differ in the operand only) say nothing about how S treats them
-            ok = bool(ents) and all((e, f.file, line) in reached for e in ents) and (f.file, line) not in internal
+            # `reached` only holds (entry, statement) pairs from evaluations in which the twins differ exactly in that entry's operand:
+            # on the synchronised twin the entry was not entered with pending signs and no array in scope at S carried any (signs
+            # produced inside the operation or by an earlier step of the program are not what the twins differ in)
+            ok = bool(ents) and all((e, f.file, line) in reached and (e, f.file, line) not in internal for e in ents)
         (dropped if ok else keep).append(f)
     ctx.findings[:] = keep
     for f in dropped:
